@@ -400,7 +400,7 @@ def judge(role, pings, o):
 class C16(Check):
     id = "C16"
     level = "model_checking"
-    rule = ("every event sequence up to depth D over {local close(), close(1001,'bye'), local write_message, peer close frame "
+    rule = ("every event sequence up to depth D (3 quick; thorough 6, and 4 in the ping / gated / deflate / blocked-write / fragment variants) over {local close(), close(1001,'bye'), local write_message, peer close frame "
             "(empty, code 1000, code + 123-byte reason = the largest legal control payload, invalid-UTF-8 reason, 1-byte payload), peer text message, peer pong, peer EOF at "
             "a frame boundary, peer EOF mid-frame, on_message gate release, earliest timer fires}, for the real server side "
             "and the real client side, with and without keep-alive pings (interval 10 s, timeout 4 s) and with synchronous or "
@@ -450,7 +450,7 @@ class C16(Check):
             return
         role, pings, gated, first, preamble = part[:5]
         mode = part[5] if len(part) > 5 else ""
-        depth = 3 if tier == "quick" else 5
+        depth = 3 if tier == "quick" else 6
         if gated or pings or mode:
             depth = 3 if tier == "quick" else 4
         kw = {"deflate": mode == "deflate", "blockmode": mode == "block"}
